@@ -231,6 +231,46 @@ func c14Eviction(p *Prog, r *Report) {
 		r.Anchor("C14.R3", "collections.TTLMap / PriorityQueue", "not found")
 		return
 	}
+	// the map holds as many sources as it was asked to: the constructor stores its capacity argument, possibly
+	// raised from below (<= 0 -> 0), never capped from above
+	{
+		capF := fieldByRole(tm, "capacity", isPlainBasic(types.Int), nil)
+		nC := 0
+		for _, st := range p.StoresToField(tm, capF) {
+			fa, _ := st.Addr.(*ssa.FieldAddr)
+			if fa == nil {
+				continue
+			}
+			if _, fresh := fa.X.(*ssa.Alloc); !fresh {
+				continue
+			}
+			nC++
+			fn := st.Parent()
+			fromParam := false
+			var walk func(v ssa.Value, d int)
+			walk = func(v ssa.Value, d int) {
+				if v == nil || d > 8 {
+					return
+				}
+				switch x := v.(type) {
+				case *ssa.Parameter:
+					fromParam = true
+				case *ssa.Phi:
+					for _, e := range x.Edges {
+						walk(e, d+1)
+					}
+				case *ssa.Convert:
+					walk(x.X, d+1)
+				}
+			}
+			walk(st.Val, 0)
+			capv, capped := UpperCapIn(p, st.Val, 0)
+			_ = capv
+			r.Check(fromParam && !capped, "C14.R4", "collections."+fn.Name()+": the map's capacity is the constructor's argument (not capped)", p.InstrPos(st), "capacity := parameter (raised to 0 when negative)",
+				"the stored capacity is not the constructor's argument or is bounded from above by a constant: with more live sources than that bound entries are evicted although the configured capacity is not reached")
+		}
+		r.Floor("C14.R4", nC, 1, "capacity initialisations of the TTL map")
+	}
 	// "the entry nearest to expiry" is the heap's root only while the heap order holds: every change of an
 	// item's priority (a store outside the initialisation of a new item) is followed, on every path, by
 	// heap.Fix / heap.Push re-establishing the order — an in-place overwrite leaves a later deadline above
